@@ -100,8 +100,9 @@ func (eng *Engine) contractsOf(pkgPath string) *ContractSet {
 		return cs
 	}
 	rel := strings.TrimPrefix(strings.TrimPrefix(pkgPath, repoMod), "/")
-	path := filepath.Join(repoDir, rel, "contracts_verif.go")
-	if _, err := os.Stat(path); err == nil {
+	files, _ := filepath.Glob(filepath.Join(repoDir, rel, "contracts_verif*.go"))
+	sort.Strings(files)
+	for _, path := range files {
 		if err := cs.loadFile(path); err != nil {
 			fmt.Fprintf(os.Stderr, "vcgo: contract file error: %v\n", err)
 			os.Exit(2)
